@@ -110,7 +110,7 @@ class REDItoolsRecord():
         if total_count < min_coverage_rna:
             return valid_subs
 
-        if self.g_coverage_q != -1:
+        if min_coverage_dna != -1 and self.g_coverage_q != -1:
             if self.g_coverage_q is None or self.g_coverage_q < min_coverage_dna:
                 return valid_subs
 
